@@ -24,7 +24,10 @@ RULE = ('histories of 2..10 steps over {forward(point,D,P,kind), reverse(seed), 
         'drawn as one Hypothesis value (the generator tracks the abstract state: kind/D/P of the last forward evaluation) and applied '
         'to one recorded program (single 1-D input, scalar or vector output) from the concolic generator.  Non-trivial = history '
         'contains >= 2 reverse sweeps after one forward, or a forward at another point/D/P followed by a reverse, or a driver call '
-        'after a reverse sweep, or an interleaved second graph; distinct by descriptor hash')
+        'after a reverse sweep, or an interleaved second graph; distinct by descriptor hash.  Forward steps may re-use the caller\'s containers '
+        'refilled in place; the second graph may be recorded WHILE the first is evaluated; history-linalg* buckets (vector reshaped to a '
+        'matrix, then eigh/cholesky/inv/det); history-two-inputs (either input plain or polynomial, changing between evaluations; non-trivial '
+        'there = the roles change and a reverse sweep follows)')
 ASSUMPTIONS = [
     'expected value of a call = the same call on a fresh graph recorded with the call\'s own forward argument (no history) / direct execution',
     'agreement to 1e-12 relative to max(1, max|reference|) (identical kernels, only buffer state may differ)',
